@@ -620,6 +620,9 @@ fn c01(tier: &str) -> Vec<String> {
         // single empty bare tag): the sections still appear exactly when supplied
         v.push(format!("fmt04:row={}:tier={}", row, tier));
     }
+    // the numeric boundary values of C02 (durations at every position of a packed list included):
+    // a value that cannot be sent must not produce a line at all
+    v.push("num:part=dur".to_string());
     // histories of calls on one client with the sink refusing some of them: what a call hands to
     // the sink does not depend on how earlier calls ended (scratch state kept between calls)
     for i in 0..30 {
